@@ -218,6 +218,17 @@ theorem map_some_eraseIdx {α : Type} (l : List α) (i : Nat) :
     | zero => simp
     | succ i => simp [ih i]
 
+/-! ### `uint32` is a ring modulo 2^32: additions and multiplications of translated numbers need no range hypothesis;
+    only Nat's TRUNCATED subtraction and the comparisons do -/
+
+theorem u32_add' (a b : Nat) : u32 a + u32 b = u32 (a + b) := by
+  simp [u32, UInt32.ofNat_add]
+theorem u32_sub' {a b : Nat} (h : b ≤ a) : u32 a - u32 b = u32 (a - b) := by
+  have : u32 a = u32 (a - b) + u32 b := by rw [u32_add']; congr 1; omega
+  rw [this]; simp
+theorem u32_mul' (a b : Nat) : u32 a * u32 b = u32 (a * b) := by
+  simp [u32, UInt32.ofNat_mul]
+
 /-- `uint64(len(s))` -/
 theorem u64_len (n : Nat) : UInt64.ofInt (Int.ofNat n) = u64 n := u64_ofInt n
 
